@@ -104,13 +104,10 @@ func (p *Unsubscribe) UnmarshalBinary(data []byte) error {
 	b.get(&p.packetID)
 	b.getAny(nil, p.appendUserProperty)
 
-	for {
+	for b.err == nil && b.i < len(data) {
 		var f wstring
 		b.get(&f)
 		p.filters = append(p.filters, f)
-		if b.i == len(data) {
-			break
-		}
 	}
 	return b.err
 }
